@@ -636,7 +636,7 @@ class Flattener(object):
                 self.skipped.append(callee.key)
                 continue
             self.inlined.append(callee.key)
-            inner = self.rewrite_block(pre + new_body, callee.cls, stack + [callee.key])
+            inner = self.rewrite_block(pre + new_body, callee.cls if callee.cls is not None else cls, stack + [callee.key])
             if tail:
                 return inner + self.inline_stmt(tail[0], cls, stack)
             return inner
@@ -845,7 +845,35 @@ class Flattener(object):
                 setattr(stmt, field, new)
         return stmt
 
+    def _forward_generator_temps(self, stmts):
+        """tmp = gen(a, b)  ...  for x in tmp: B      ==>      ...  for x in gen(a, b): B
+        when `tmp` is used nowhere else and nothing in between stores to a name of the call: creating the generator object
+        runs none of its code, so the call can be made where the loop starts"""
+        out = list(stmts)
+        i = 0
+        while i < len(out):
+            s = out[i]
+            if isinstance(s, ast.Assign) and len(s.targets) == 1 and isinstance(s.targets[0], ast.Name) and self._is_generator_call(s.value) \
+                    and all(_pure(a) for a in s.value.args) and all(_pure(k.value) for k in s.value.keywords):
+                tmp = s.targets[0].id
+                uses = [n for r_ in out[i + 1:] for n in ast.walk(r_) if isinstance(n, ast.Name) and n.id == tmp]
+                names = {n.id for n in ast.walk(s.value) if isinstance(n, ast.Name)}
+                for j in range(i + 1, len(out)):
+                    f = out[j]
+                    if isinstance(f, ast.For) and isinstance(f.iter, ast.Name) and f.iter.id == tmp and len(uses) == 1:
+                        between = out[i + 1:j]
+                        if not any(names & _stored_names(b) for b in between):
+                            f.iter = s.value
+                            del out[i]
+                            i -= 1
+                        break
+                    if any(isinstance(n, ast.Name) and n.id == tmp for n in ast.walk(f)):
+                        break
+            i += 1
+        return out
+
     def rewrite_block(self, stmts, cls, stack):
+        stmts = self._forward_generator_temps(stmts)
         out = []
         for s in stmts:
             out.extend(self.inline_stmt(s, cls, stack))
@@ -1015,7 +1043,150 @@ class Flattener(object):
         self.desugared += 1
         return [ast.copy_location(init, at), ast.copy_location(loop, at)]
 
+    def _desugar_iterator_pulls(self, stmts, fn):
+        """it = (e for t in SRC if c)   [or a private generator function]   consumed only by k successive `next(it, d_i)`:
+              v1 = d1; ...; vk = dk; n = 0
+              for t in SRC:
+                  if c:
+                      if n == 0: v1 = e
+                      elif n == 1: v2 = e ...
+                      n += 1
+           and the i-th `next(it, d_i)` reads v_i.  The values pulled are the same; the source is read to its end instead of
+           stopping after k hits (the sources here are side-effect free membership scans)."""
+        out = []
+        for idx, s in enumerate(stmts):
+            for field in ('body', 'orelse', 'finalbody'):
+                blk = getattr(s, field, None)
+                if isinstance(blk, list) and blk and isinstance(blk[0], ast.stmt) and not isinstance(s, (ast.FunctionDef, ast.ClassDef)):
+                    setattr(s, field, self._desugar_iterator_pulls(blk, fn))
+            if isinstance(s, ast.Try):
+                for h in s.handlers:
+                    h.body = self._desugar_iterator_pulls(h.body, fn)
+            if not (isinstance(s, ast.Assign) and len(s.targets) == 1 and isinstance(s.targets[0], ast.Name)):
+                out.append(s)
+                continue
+            it = s.targets[0].id
+            v = s.value
+            is_gexp = isinstance(v, ast.GeneratorExp) and len(v.generators) == 1
+            is_gcall = self._is_generator_call(v)
+            if not (is_gexp or is_gcall):
+                out.append(s)
+                continue
+            uses = [n for n in ast.walk(fn) if isinstance(n, ast.Name) and n.id == it and n is not s.targets[0]]
+            pulls = [c for c in ast.walk(fn) if isinstance(c, ast.Call) and isinstance(c.func, ast.Name) and c.func.id == 'next' and
+                     len(c.args) == 2 and not c.keywords and isinstance(c.args[0], ast.Name) and c.args[0].id == it and _pure(c.args[1])]
+            rest_nodes = {id(n) for r_ in stmts[idx + 1:] for n in ast.walk(r_)}
+            if not pulls or len(pulls) > 3 or len(uses) != len(pulls) or any(id(c) not in rest_nodes for c in pulls) or \
+                    len([n for n in ast.walk(fn) if isinstance(n, ast.Name) and n.id == it and isinstance(n.ctx, ast.Store)]) != 1:
+                out.append(s)
+                continue
+            # pulls inside a loop would repeat: only straight-line / branching code after the definition
+            in_loop = False
+            for r_ in stmts[idx + 1:]:
+                for lp in ast.walk(r_):
+                    if isinstance(lp, (ast.For, ast.While)) and any(id(c) in {id(x) for x in ast.walk(lp)} for c in pulls):
+                        in_loop = True
+            if in_loop:
+                out.append(s)
+                continue
+            pulls.sort(key=lambda c: (c.lineno, c.col_offset))
+            k = next(self.counter)
+            cnt = self.fresh('_pulled', k)
+            names = [self.fresh('_pull%d' % (i + 1), k) for i in range(len(pulls))]
+            if is_gexp:
+                g = v.generators[0]
+                target, src, conds, elt = g.target, g.iter, list(g.ifs), v.elt
+            else:
+                ev = self.fresh('_elem', k)
+                target, src, conds, elt = ast.Name(id=ev, ctx=ast.Store()), v, [], ast.Name(id=ev, ctx=ast.Load())
+            chain = None
+            for i in reversed(range(len(names))):
+                test = ast.Compare(left=ast.Name(id=cnt, ctx=ast.Load()), ops=[ast.Eq()], comparators=[ast.Constant(value=i)])
+                asg = ast.Assign(targets=[ast.Name(id=names[i], ctx=ast.Store())], value=clone(elt))
+                chain = ast.If(test=test, body=[asg], orelse=[chain] if chain is not None else [])
+            inc = ast.AugAssign(target=ast.Name(id=cnt, ctx=ast.Store()), op=ast.Add(), value=ast.Constant(value=1))
+            body = [chain, inc]
+            for cond in reversed(conds):
+                body = [ast.If(test=cond, body=body, orelse=[])]
+            loop = ast.For(target=target, iter=src, body=body, orelse=[], type_comment=None)
+            pre = [ast.Assign(targets=[ast.Name(id=nm, ctx=ast.Store())], value=clone(c.args[1])) for nm, c in zip(names, pulls)]
+            pre.append(ast.Assign(targets=[ast.Name(id=cnt, ctx=ast.Store())], value=ast.Constant(value=0)))
+            for st in pre + [loop]:
+                ast.copy_location(st, s)
+                ast.fix_missing_locations(st)
+                out.append(st)
+            for nm, c in zip(names, pulls):
+                repl = ast.copy_location(ast.Name(id=nm, ctx=ast.Load()), c)
+                for r_ in stmts[idx + 1:]:
+                    _ReplaceNode(c, repl).visit(r_)
+            self.desugared += 1
+        return out
+
+    def _class_literal(self, attr):
+        """the literal a class-level name is bound to (once, in the class body or a base), if nothing else stores to it"""
+        cls = self.fi.cls
+        if cls is None:
+            return None
+        for f in self.prog.all_functions():
+            for n in ast.walk(f.node):
+                if isinstance(n, ast.Attribute) and n.attr == attr and isinstance(n.ctx, (ast.Store, ast.Del)):
+                    return None
+        found = []
+        for c in cls.mro:
+            node = getattr(c, 'node', None)
+            if node is None:
+                continue
+            for st in node.body:
+                if isinstance(st, ast.Assign) and any(isinstance(t, ast.Name) and t.id == attr for t in st.targets):
+                    found.append(st.value)
+        return found[0] if len(found) == 1 else None
+
+    def _exception_tuple(self, e, depth=0):
+        """the exception classes a handler type denotes, as a list of Name/Attribute nodes, when it is a name bound once to a
+        tuple of classes or computed from a class-level table of (class, ...) rows; None otherwise"""
+        if depth > 3:
+            return None
+        if isinstance(e, ast.Tuple) and all(isinstance(x, (ast.Name, ast.Attribute)) for x in e.elts):
+            return list(e.elts)
+        if isinstance(e, ast.Name):
+            d = self._single_def(e.id)
+            return self._exception_tuple(d.value, depth + 1) if d is not None else None
+        if isinstance(e, ast.Attribute) and isinstance(e.value, ast.Name) and e.value.id in ('self', 'cls'):
+            lit = self._class_literal(e.attr)
+            return self._exception_tuple(lit, depth + 1) if lit is not None else None
+        if isinstance(e, ast.Call) and isinstance(e.func, ast.Name) and e.func.id == 'tuple' and len(e.args) == 1 and \
+                isinstance(e.args[0], (ast.GeneratorExp, ast.ListComp)) and len(e.args[0].generators) == 1 and not e.args[0].generators[0].ifs:
+            comp = e.args[0]
+            g = comp.generators[0]
+            src = g.iter
+            if isinstance(src, ast.Attribute) and isinstance(src.value, ast.Name) and src.value.id in ('self', 'cls'):
+                src = self._class_literal(src.attr)
+            if not (isinstance(src, (ast.Tuple, ast.List)) and src.elts and all(isinstance(r, (ast.Tuple, ast.List)) and r.elts for r in src.elts)):
+                return None
+            # the element selected from every row: a target name of the unpacking, or row[i]
+            idx = None
+            if isinstance(g.target, ast.Tuple) and isinstance(comp.elt, ast.Name):
+                names = [t.id if isinstance(t, ast.Name) else None for t in g.target.elts]
+                if comp.elt.id in names:
+                    idx = names.index(comp.elt.id)
+            elif isinstance(g.target, ast.Name) and isinstance(comp.elt, ast.Subscript) and isinstance(comp.elt.value, ast.Name) and \
+                    comp.elt.value.id == g.target.id and isinstance(comp.elt.slice, ast.Constant) and isinstance(comp.elt.slice.value, int):
+                idx = comp.elt.slice.value
+            if idx is None or any(idx >= len(r.elts) for r in src.elts):
+                return None
+            picked = [r.elts[idx] for r in src.elts]
+            return picked if all(isinstance(x, (ast.Name, ast.Attribute)) for x in picked) else None
+        return None
+
     def desugar_stmt(self, s):
+        # `except NAME:` where NAME is bound once to a tuple of exception classes (possibly taken from a class-level table)
+        if isinstance(s, ast.Try):
+            for h in s.handlers:
+                if isinstance(h.type, (ast.Name, ast.Attribute)) and not (isinstance(h.type, ast.Name) and h.type.id[:1].isupper()):
+                    classes = self._exception_tuple(h.type)
+                    if classes:
+                        h.type = ast.copy_location(ast.Tuple(elts=[clone(c) for c in classes], ctx=ast.Load()), h.type)
+                        self.desugared += 1
         # getattr(x, 'Name') with a literal name is the attribute x.Name
         class GA(ast.NodeTransformer):
             def __init__(self):
@@ -1139,6 +1310,7 @@ class Flattener(object):
         self._node = node
         self.desugared = 0
         self._dropped = set()
+        node.body = self._desugar_iterator_pulls(node.body, node)
         node.body = self.desugar(node.body)
         if self._dropped:
             class Drop(ast.NodeTransformer):
